@@ -247,10 +247,10 @@ func (s *Storer) GetReader(offset int64, verifyCrc bool) (*Reader, error) {
 	s.mux.RLock()
 	defer s.mux.RUnlock()
 
-	s.dataSetMux.Lock()
-	defer s.dataSetMux.Unlock()
-
-	ds := s.dataSet
+	// s.mux already excludes every path that replaces the data set; holding dataSetMux
+	// here would self-deadlock when the reader verifies a segment (isCorrupted -> hasWriter
+	// -> getDataSet takes dataSetMux again)
+	ds := s.getDataSet()
 	if !ds.InRange(offset) {
 		return nil, os.ErrNotExist
 	}
